@@ -237,14 +237,21 @@ func (s *Server) readListener(l net.Listener, am *allocation.Manager) {
 				tlsConnectionState = &cs
 			}
 
-			s.readLoop(NewSTUNConn(conn), am, tlsConnectionState)
+			stunConn := NewSTUNConn(conn)
+			s.readLoop(stunConn, am, tlsConnectionState)
 
-			// Delete allocation
-			am.DeleteAllocation(&allocation.FiveTuple{
+			// Delete the allocation made over this connection. This goroutine may
+			// run late (a request still in a slow handler when the connection is
+			// reset): the five-tuple may then already belong to an allocation made
+			// over a newer connection from the same address and port.
+			fiveTuple := &allocation.FiveTuple{
 				Protocol: allocation.UDP, // fixed UDP
 				SrcAddr:  conn.RemoteAddr(),
 				DstAddr:  conn.LocalAddr(),
-			})
+			}
+			if alloc := am.GetAllocation(fiveTuple); alloc != nil && alloc.TurnSocket == net.PacketConn(stunConn) {
+				am.DeleteAllocation(fiveTuple)
+			}
 
 			if err := conn.Close(); err != nil && !errors.Is(err, net.ErrClosed) {
 				s.log.Errorf("Failed to close conn: %s", err)
